@@ -25,6 +25,8 @@ type fleetProfile struct {
 	maxOps     int
 	valueSigns []string // pos | neg | mixed | zeros
 	concat     bool
+	intruder   bool // one more node with another mapping
+	afterSend  func(g *fleetGen, n *fgNode, msg int, form string)
 	extra      func(g *fleetGen) // property-specific actors
 }
 
@@ -353,6 +355,9 @@ func GenFleet(prof *fleetProfile) func(r *engine.PRNG, run int, tier string) *en
 				}
 			}
 		}
+		if prof.intruder && r.Pct(60) {
+			g.mkNode(prof.roles[r.Intn(len(prof.roles))], prof.stores[r.Intn(len(prof.stores))], nil)
+		}
 		g.opNames = []string{"add", "addw", "merge", "copy", "clear", "reweight", "send", "query", "burst"}
 		g.weightsTab = make([]int, len(g.opNames))
 		for i, name := range g.opNames {
@@ -474,6 +479,9 @@ func (g *fleetGen) flush(n *fgNode) {
 	if form == "bin" || form == "binomit" {
 		g.binMsgs = append(g.binMsgs, id)
 	}
+	if g.prof.afterSend != nil {
+		g.prof.afterSend(g, n, id, form)
+	}
 	if r.Pct(30) { // flush-and-reset, the usual agent behaviour
 		g.emit(engine.Event{Ev: "clear", N: n.id})
 		n.n = 0
@@ -500,7 +508,7 @@ func (g *fleetGen) flush(n *fgNode) {
 		g.emit(engine.Event{Ev: "fault", N: n.id, J: int64(id), S: "drop"})
 	}
 	for d := 0; d < deliveries; d++ {
-		dst := g.nodes[r.Intn(len(g.nodes))]
+		dst := g.sameMapping(n)
 		mode := g.prof.modes[r.Intn(len(g.prof.modes))]
 		lat := int64(r.Range(1, 3000))
 		mid := id
@@ -535,4 +543,118 @@ func nonTrivialFleet(minMut int, need ...string) func(p *engine.Plan) bool {
 		}
 		return true
 	}
+}
+
+// sameMapping picks a node that shares n's mapping (possibly n itself).
+func (g *fleetGen) sameMapping(n *fgNode) *fgNode {
+	key := mapKey(&n.spec)
+	var c []*fgNode
+	for _, m := range g.nodes {
+		if mapKey(&m.spec) == key {
+			c = append(c, m)
+		}
+	}
+	return c[g.r.Intn(len(c))]
+}
+
+func (g *fleetGen) otherMapping(n *fgNode) *fgNode {
+	key := mapKey(&n.spec)
+	var c []*fgNode
+	for _, m := range g.nodes {
+		if mapKey(&m.spec) != key {
+			c = append(c, m)
+		}
+	}
+	if len(c) == 0 {
+		return nil
+	}
+	return c[g.r.Intn(len(c))]
+}
+
+// foreignStream builds a well-formed stream from the documented grammar:
+// blocks in any order, the three bin layouts, negative, zero and large strides,
+// repeated blocks and repeated indexes, statistics blocks.
+func (g *fleetGen) foreignStream(n *fgNode) []byte {
+	r := g.r
+	var blocks [][]byte
+	pb := n.m.ToProto()
+	if r.Pct(85) {
+		blocks = append(blocks, refmodel.DocEncodeMapping(n.spec.Map, pb.Gamma, pb.IndexOffset))
+		if r.Pct(10) {
+			blocks = append(blocks, refmodel.DocEncodeMapping(n.spec.Map, pb.Gamma, pb.IndexOffset))
+		}
+	}
+	for k := r.Pick(5, 4, 1); k > 0; k-- {
+		blocks = append(blocks, refmodel.DocEncodeFeature(1, g.weightOr("int")))
+	}
+	if r.Pct(25) {
+		blocks = append(blocks, refmodel.DocEncodeFeature(0x28, float64(r.Range(0, 50))))
+		blocks = append(blocks, refmodel.DocEncodeFeature(0x21, r.Float64()*100))
+		blocks = append(blocks, refmodel.DocEncodeFeature(0x22, -r.Float64()))
+		blocks = append(blocks, refmodel.DocEncodeFeature(0x23, r.Float64()*50))
+	}
+	centre := int64(n.m.Index(n.centre))
+	for k := r.Range(1, 5); k > 0; k-- {
+		t := refmodel.DocTypePositive
+		if r.Pct(35) {
+			t = refmodel.DocTypeNegative
+		}
+		layout := 1 + r.Intn(3)
+		var idx []int64
+		var cnt []float64
+		stride := int64(0)
+		switch layout {
+		case 1, 2:
+			cur := centre + int64(r.Range(-300, 300))
+			for j := r.Range(0, 12); j > 0; j-- {
+				idx = append(idx, cur)
+				w := 1.0
+				if layout == 1 {
+					w = g.weightOr("frac")
+					if r.Pct(5) {
+						w = 0
+					}
+				}
+				cnt = append(cnt, w)
+				cur += int64([]int{0, 1, 1, 2, -1, -7, 31, 32, 33, -40, 40}[r.Intn(11)])
+			}
+		case 3:
+			stride = int64([]int{-33, -32, -2, -1, 0, 1, 1, 1, 2, 31, 32, 33, 64, 100}[r.Intn(14)])
+			first := centre + int64(r.Range(-300, 300))
+			if r.Pct(30) {
+				first = first &^ 31 // page aligned
+			}
+			cur := first
+			for j := r.Range(0, 40); j > 0; j-- {
+				idx = append(idx, cur)
+				w := g.weightOr("int")
+				if r.Pct(30) {
+					w = 0
+				}
+				cnt = append(cnt, w)
+				cur += stride
+			}
+		}
+		blocks = append(blocks, refmodel.DocEncodeBins(t, layout, idx, cnt, stride))
+		if r.Pct(10) {
+			blocks = append(blocks, blocks[len(blocks)-1]) // a repeated block
+		}
+	}
+	// any order
+	for i := len(blocks) - 1; i > 0; i-- {
+		j := r.Intn(i + 1)
+		blocks[i], blocks[j] = blocks[j], blocks[i]
+	}
+	var out []byte
+	for _, b := range blocks {
+		out = append(out, b...)
+	}
+	return out
+}
+
+func (g *fleetGen) weightOr(regime string) float64 {
+	if g.regime == "unit" {
+		return dyadicWeight(g.r, regime)
+	}
+	return g.weight()
 }
